@@ -55,6 +55,10 @@ const (
 var trackedDenoms = []string{"uusdc", "ustake", "uswap", "ibc"}
 
 // World is one app instance plus the concretisation tables.
+// chan1ID is the Noble-side identifier of the second channel: a sequence beyond 32 bits (ibc-go
+// sequences are uint64), different from the counterparty end (channel-9).
+const chan1ID = "channel-4294967296"
+
 type World struct {
 	app  *simapp.SimApp
 	cdc  codec.Codec
@@ -131,7 +135,7 @@ func NewWorld(orbiterGenesisOverride json.RawMessage) (w *World, initErr error) 
 		app: app, cdc: cdc,
 		acct: map[string]sdk.AccAddress{}, acctName: map[string]string{},
 		bytes32: map[string][]byte{}, bytes32Name: map[string]string{},
-		chanOf:   map[int]string{0: "channel-0", 1: "channel-1"},
+		chanOf:   map[int]string{0: "channel-0", 1: chan1ID},
 		cpChanOf: map[int]string{0: "channel-7", 1: "channel-9"},
 	}
 
@@ -143,7 +147,7 @@ func NewWorld(orbiterGenesisOverride json.RawMessage) (w *World, initErr error) 
 	w.addAcct("orb", core.ModuleAddress)
 	w.addAcct("dust", authtypes.NewModuleAddress(core.DustCollectorName))
 	w.addAcct("esc0", transfertypes.GetEscrowAddress("transfer", "channel-0"))
-	w.addAcct("esc1", transfertypes.GetEscrowAddress("transfer", "channel-1"))
+	w.addAcct("esc1", transfertypes.GetEscrowAddress("transfer", chan1ID))
 	w.addAcct("U", fixedAddr("user-U"))
 	w.addAcct("F1", fixedAddr("fee-F1"))
 	w.addAcct("F2", fixedAddr("fee-F2"))
